@@ -108,7 +108,7 @@ pub fn cases(mix: &str, n: usize, seed: u64) -> Vec<Case> {
     }
     if want("exhaustive") {
         // all token strings up to a length bound behind a valid header
-        let maxlen = if n >= 1_000_000 { 4 } else { 3 };
+        let maxlen = if n >= 100_000 { 4 } else { 3 };
         for len in 0..=maxlen {
             let total = (gen::TOKENS.len() as u64).pow(len as u32);
             for i in 0..total {
